@@ -141,3 +141,68 @@ Qed.
 Lemma fixed_greedy_examples :
   greedy_stuck Fixed 0 5 = false /\ greedy_stuck Fixed 0 16 = false /\ greedy_stuck Fixed 2 40 = false.
 Proof. repeat split; vm_compute; reflexivity. Qed.
+
+(* ------------------------------------------- all calls reach the session *)
+
+(* A served session may hold every call until all n have arrived (a
+   rendezvous).  For the repaired structure: as long as no handler returns
+   (no EFinish), the goroutines keep moving until all n calls sit in running
+   handlers - whatever the schedule and the buffering.  A bound on the number
+   of handlers a connection may run would falsify this. *)
+Definition is_finish (e : ev) : bool := match e with EFinish => true | _ => false end.
+
+(* nothing has left a handler yet *)
+Definition quiet (s : st) : Prop :=
+  h_done s = 0 /\ sl_send s = false /\ sw_writing s = false /\ sc_buf s = 0 /\ cr_hold s = false /\ c_done s = 0.
+
+Lemma step_quiet : forall cap s e s',
+  is_finish e = false -> step Fixed cap s e = Some s' -> quiet s -> quiet s'.
+Proof.
+  intros cap s e s' Hf H [H1 [H2 [H3 [H4 [H5 H6]]]]].
+  destruct s as [cn cw cd qq hw cww csb srh hr hd sls sww scb crh].
+  cbn in H1, H2, H3, H4, H5, H6. subst.
+  unfold quiet.
+  destruct e; try discriminate Hf; cbn in H; crush_step H; inversion H; subst; clear H; cbn; repeat split; reflexivity.
+Qed.
+
+Lemma run_quiet : forall cap sched s s',
+  forallb (fun e => negb (is_finish e)) sched = true ->
+  run Fixed cap s sched = Some s' -> quiet s -> quiet s'.
+Proof.
+  intros cap sched. induction sched as [| e r IH]; intros s s' Hnf H Hq; cbn in H.
+  - inversion H; subst. exact Hq.
+  - cbn in Hnf. apply andb_true_iff in Hnf. destruct Hnf as [He Hr].
+    destruct (step Fixed cap s e) as [s1 |] eqn:E; [| discriminate].
+    apply (IH s1 s' Hr H). apply (step_quiet cap s e s1); [apply negb_true_iff; exact He | exact E | exact Hq].
+Qed.
+
+Lemma fixed_all_arrive : forall cap n sched s,
+  forallb (fun e => negb (is_finish e)) sched = true ->
+  run Fixed cap (init n) sched = Some s ->
+  (forall e, is_finish e = false -> enabled Fixed cap s e = false) ->
+  h_run s = n.
+Proof.
+  intros cap n sched s Hnf H Hdis.
+  destruct (run_facts Fixed cap n sched (init n) s H) as [Hc [_ Hw]].
+  destruct (Hc (init_conserved n)) as [Hc1 Hc2]. specialize (Hw eq_refl eq_refl).
+  assert (Hq : quiet s).
+  { apply (run_quiet cap sched (init n) s Hnf H). unfold quiet. cbn. repeat split; reflexivity. }
+  destruct Hq as [H1 [H2 [H3 [H4 [H5 H6]]]]].
+  destruct s as [cn cw cd qq hw cww csb srh hr hd sls sww scb crh].
+  unfold inflight in Hc1. cbn in *. subst.
+  assert (Hsr : srh = false).
+  { destruct srh; [| reflexivity]. specialize (Hdis ESpawn eq_refl). cbn in Hdis. discriminate. }
+  subst srh.
+  assert (Hcs : csb = 0).
+  { destruct csb; [reflexivity |]. specialize (Hdis ESRead eq_refl). cbn in Hdis. discriminate. }
+  subst csb.
+  assert (Hcw : cww = false).
+  { destruct cww; [| reflexivity]. specialize (Hdis ECWrite eq_refl). cbn in Hdis. discriminate. }
+  subst cww.
+  assert (Hqq : qq = 0).
+  { destruct qq; [reflexivity |]. specialize (Hdis EQueueToWriter eq_refl). cbn in Hdis. discriminate. }
+  subst qq.
+  assert (Hcn : cn = 0).
+  { destruct cn; [reflexivity |]. specialize (Hdis ESubmit eq_refl). cbn in Hdis. discriminate. }
+  subst cn. cbn in *. lia.
+Qed.
